@@ -24,6 +24,38 @@ var lawNames = []string{
 	"weld∘weld ≡ weld",
 	"toPointCloud∘toPointCloud ≡ toPointCloud",
 	"translate(a)∘translate(b) ≈ translate(a+b)",
+	"smoothNormals∘scale(σ) ≡ smoothNormals (normals do not depend on the unit of length)",
+	"flatNormals∘scale(σ) ≡ flatNormals (normals do not depend on the unit of length)",
+	"smoothNormalsImplicitWeld(σd)∘scale(σ) ≡ smoothNormalsImplicitWeld(d)",
+}
+
+// scaling factors of the unit-of-length laws: powers of two only — scaling by them is exact, so every
+// intermediate of the scaled computation is the scaled intermediate and even exactly cancelling face
+// normals (two faces of opposite winding) cancel at every scale; a decimal factor would turn such a
+// zero sum into rounding noise of arbitrary direction
+var lawSigmas = []float64{0x1p-30, 0x1p-20, 0x1p-10, 0x1p-5, 0x1p10, 0x1p20, 0x1p30}
+
+// normalsAgree compares the Normal attribute of two results (NaN matches NaN: a degenerate face has
+// no normal at either scale).
+func normalsAgree(a, b modeling.Mesh, what string) (string, string) {
+	if a.HasFloat3Attribute(modeling.NormalAttribute) != b.HasFloat3Attribute(modeling.NormalAttribute) {
+		return clLaw, what + ": one result has normals, the other has none"
+	}
+	if !a.HasFloat3Attribute(modeling.NormalAttribute) {
+		return "", ""
+	}
+	x, y := a.Float3Attribute(modeling.NormalAttribute), b.Float3Attribute(modeling.NormalAttribute)
+	if x.Len() != y.Len() {
+		return clLaw, fmt.Sprintf("%s: %d vs %d normals", what, x.Len(), y.Len())
+	}
+	for i := 0; i < x.Len(); i++ {
+		p, q := x.At(i), y.At(i)
+		pn, qn := p.ContainsNaN(), q.ContainsNaN()
+		if pn != qn || (!pn && p.Sub(q).Length() > 1e-9) {
+			return clLaw, fmt.Sprintf("%s: normal %d is %v at unit scale and %v on the scaled mesh", what, i, p, q)
+		}
+	}
+	return "", ""
 }
 
 func (k checker) laws(s meshlib.Spec, sh ml.Shape) {
@@ -206,6 +238,34 @@ func (k checker) law(s meshlib.Spec, sh ml.Shape, name string) {
 			}
 			if cl, d := mapped(b, a, key(ml.P, 3), func(i int, v val) (val, bool) { return v, true }); cl != "" {
 				return clLaw, d
+			}
+			return "", ""
+		}
+	case "smoothNormals∘scale(σ) ≡ smoothNormals (normals do not depend on the unit of length)",
+		"flatNormals∘scale(σ) ≡ flatNormals (normals do not depend on the unit of length)",
+		"smoothNormalsImplicitWeld(σd)∘scale(σ) ≡ smoothNormalsImplicitWeld(d)":
+		if !tri || !hasP {
+			return
+		}
+		var op func(m modeling.Mesh, sigma float64) modeling.Mesh
+		switch {
+		case name[0:4] == "flat":
+			site = "meshops.FlatNormals"
+			op = func(m modeling.Mesh, _ float64) modeling.Mesh { return meshops.FlatNormals(m) }
+		case len(name) > 25 && name[:25] == "smoothNormalsImplicitWeld":
+			site = "meshops.SmoothNormalsImplicitWeld"
+			op = func(m modeling.Mesh, sigma float64) modeling.Mesh { return meshops.SmoothNormalsImplicitWeld(m, 0.25*sigma) }
+		default:
+			site = "meshops.SmoothNormals"
+			op = func(m modeling.Mesh, _ float64) modeling.Mesh { return meshops.SmoothNormals(m) }
+		}
+		f = func() (string, string) {
+			base := op(s.Build(), 1)
+			for _, sg := range lawSigmas {
+				scaled := op(s.Build().Scale(vector3.New(sg, sg, sg)), sg)
+				if cl, d := normalsAgree(base, scaled, fmt.Sprintf("σ=%g", sg)); cl != "" {
+					return cl, d
+				}
 			}
 			return "", ""
 		}
